@@ -92,14 +92,6 @@ theorem TouchS.trans_same {σ σ1 σ2 : BState} {b : Nat} (h1 : TouchS σ b σ1)
   intro i hi hne
   rw [h2.frame i (Nat.lt_of_lt_of_le hi h1.len) hne, h1.frame i hi hne]
 
-/-- statements without `for` loops (the fragment covered by the correctness proof) -/
-def noFor : Stmt → Bool
-  | .nil | .pass | .brk | .cont | .ret0 | .assign .. | .aug .. | .expr _ | .ret _ => true
-  | .cons s r => noFor s && noFor r
-  | .ite _ t e => noFor t && noFor e
-  | .while _ b => noFor b
-  | .for .. | .forFrom .. => false
-
 theorem GoodS.mk_none {σ σ' : BState} {b : Nat} (h : TouchS σ b σ') : GoodS σ b (σ', none) :=
   ⟨h, fun _ hb => by cases hb⟩
 
